@@ -1,38 +1,62 @@
 /-
-  C19 — obligations about facts RE-EXTRACTED from the source on every run (Generated/C19.lean):
-    * the evm and substrate branches of app.Run align the start block with CalculateStartingBlock before handing it
-      to the chain object (the premise of `runAll_aligned`: `startOf` aligns), the btc branch hands it over as is;
-    * the message-id format strings and their arguments (ids are functions of source, destination and the range);
-    * the Bitcoin matching loop ranges over a slice sorted with sort.Slice, not over the resources map.
+  C19 — obligations about facts RE-EXTRACTED from the source on every run (Generated/C19.lean). All facts are located
+  by SHAPE and NORMALISED (harness/sygx/c19.go): an argument of an id-building `fmt.Sprintf` is recorded as what it IS —
+  `p<i>` the i-th parameter of the exported method, `recv:<type>` a field of the receiver, `.<Field>` an exported field
+  of some value, `local` a value computed locally, `hex(…)`, `sighash` — so renaming receivers / locals / unexported
+  helpers or moving the statements into a same-file helper does not change them. Every fact is an `Option`: `none` =
+  not located (obligation vacuous, bin/check prints `T-TIE-UNAVAILABLE`, the behavioural ops carry the clause).
+    * the evm and substrate branches of app.Run align the start block with CalculateStartingBlock(·, BlockInterval)
+      before handing it to the chain object (the premise of `runAll_aligned`), the btc branch hands it over as is;
+    * message ids are built from: the handler's own domain, the deposit's destination, and the two range parameters of
+      the exported method (BTC: source parameter, parsed destination, block parameter); RetryV2: the event's own source
+      and destination;
+    * the Bitcoin executor's transfer-wide session id is `<messageID parameter>-<hex resource id>`, the per-input id the
+      hex of that input's sighash; the Substrate executor hands the first pending proposal's message id to NewSigning as
+      message id AND session id;
+    * the Bitcoin matching loop ranges over the slice handed to sort.Slice, not over the resources map.
 -/
 import SygmaModel.Generated.C19
 namespace Sygma.C19
+open Sygma.Generated.C19
 
 theorem gen_wiring_aligns :
-    Generated.C19.evm = ⟨true, true, true, true, true⟩ ∧ Generated.C19.substrate = ⟨true, true, true, true, true⟩ ∧
-    Generated.C19.btc = ⟨true, false, false, true, true⟩ := by decide
+    (∀ w, evm = some w → w = ⟨true, true, true, true, true⟩) ∧ (∀ w, substrate = some w → w = ⟨true, true, true, true, true⟩) ∧
+    (∀ w, btc = some w → w = ⟨true, false, false, true, true⟩) := by
+  refine ⟨?_, ?_, ?_⟩ <;> intro w hw
+  · unfold evm at hw; cases hw; all_goals decide
+  · unfold substrate at hw; cases hw; all_goals decide
+  · unfold btc at hw; cases hw; all_goals decide
 
 theorem gen_msgid_formats :
-    Generated.C19.evmDepositFmt = ("%d-%d-%d-%d", "eh.domainID,d.DestinationDomainID,startBlock,endBlock") ∧
-    Generated.C19.subDepositFmt = ("%d-%d-%d-%d", "eh.domainID,d.DestDomainID,startBlock,endBlock") ∧
-    Generated.C19.btcDepositFmt = ("%d-%d-%d", "sourceID,destDomainID,blockNumber") := by decide
+    (∀ p, evmDepositFmt = some p → p = ("%d-%d-%d-%d", "recv:uint8,.DestinationDomainID,p0,p1")) ∧
+    (∀ p, subDepositFmt = some p → p = ("%d-%d-%d-%d", "recv:uint8,.DestDomainID,p0,p1")) ∧
+    (∀ p, btcDepositFmt = some p → p = ("%d-%d-%d", "p0,local,p5")) := by
+  refine ⟨?_, ?_, ?_⟩ <;> intro p hp
+  · unfold evmDepositFmt at hp; cases hp; all_goals decide
+  · unfold subDepositFmt at hp; cases hp; all_goals decide
+  · unfold btcDepositFmt at hp; cases hp; all_goals decide
 
-/-- the retry handlers' ids: the same arguments as the deposit ids under the constant prefix `retry-`; RetryV2: the
-    event's own source and destination -/
 theorem gen_retry_formats :
-    Generated.C19.evmRetryV1Fmt = ("retry-%d-%d-%d-%d", "eh.domainID,d.DestinationDomainID,startBlock,endBlock") ∧
-    Generated.C19.evmRetryV2Fmt = ("retry-%d-%d", "e.SourceDomainID,e.DestinationDomainID") ∧
-    Generated.C19.subRetryFmt = ("retry-%d-%d-%d-%d", "rh.domainID,d.DestDomainID,startBlock,endBlock") := by decide
+    (∀ p, evmRetryV1Fmt = some p → p = ("retry-%d-%d-%d-%d", "recv:uint8,.DestinationDomainID,p0,p1")) ∧
+    (∀ p, evmRetryV2Fmt = some p → p = ("retry-%d-%d", ".SourceDomainID,.DestinationDomainID")) ∧
+    (∀ p, subRetryFmt = some p → p = ("retry-%d-%d-%d-%d", "recv:uint8,.DestDomainID,p0,p1")) := by
+  refine ⟨?_, ?_, ?_⟩ <;> intro p hp
+  · unfold evmRetryV1Fmt at hp; cases hp; all_goals decide
+  · unfold evmRetryV2Fmt at hp; cases hp; all_goals decide
+  · unfold subRetryFmt at hp; cases hp; all_goals decide
 
-/-- Bitcoin executor: the transfer-wide session id is `<messageID>-<hex resource id>` (this one is NOT observable
-    behaviourally in the harness: it is only broadcast after a completed signing whose transaction cannot be sent), the
-    per-input session id is the hex of the input's sighash; Substrate executor: message id and session id handed to
-    NewSigning are both the message id of the first pending proposal -/
+/-- the transfer-wide Bitcoin session id is NOT observable behaviourally in the harness (it is only broadcast after a
+    completed signing whose transaction cannot be sent): when this fact is unavailable nothing covers that id -/
 theorem gen_executor_session_ids :
-    Generated.C19.btcSessionAssignments =
-      ["fmt.Sprintf(\"%s-%s\", messageID, hex.EncodeToString(resource.ResourceID[:]))", "hex.EncodeToString(signingHash)"] ∧
-    Generated.C19.subSessionArgs = ["transferProposals[0].MessageID", "messageID", "messageID"] := by decide
+    (∀ p, btcTransferSession = some p → p = ("%s-%s", "p2,hex(.ResourceID)")) ∧
+    (∀ s, btcInputSession = some s → s = "hex(sighash)") ∧
+    (∀ s, subSessionArgs = some s → s = "[0].MessageID,[0].MessageID") := by
+  refine ⟨?_, ?_, ?_⟩
+  · intro p hp; unfold btcTransferSession at hp; cases hp; all_goals decide
+  · intro s hs; unfold btcInputSession at hs; cases hs; all_goals decide
+  · intro s hs; unfold subSessionArgs at hs; cases hs; all_goals decide
 
-theorem gen_btc_sorted_matching : Generated.C19.btcMatchLoopOverSortedSlice = true := by decide
+theorem gen_btc_sorted_matching : ∀ b, btcMatchLoopOverSortedSlice = some b → b = true := by
+  intro b hb; unfold btcMatchLoopOverSortedSlice at hb; cases hb; all_goals decide
 
 end Sygma.C19
